@@ -1,7 +1,7 @@
 from engine import Obl
 import importlib.util, os
 META = {
- "level_text": "CBMC symbolic execution of the real lib/hashtable.c, lib/skiplist.c and lib/trie.c: EVERY history of 4 operations over the alphabet {put(k), rm(k) for 3 prefix-related keys; iter_create(i), iter_next(i), iter_free(i) for 2 iterators}; CBMC's pointer checks on the real node frees decide use-after-free / double free, the per-iterator oracle decides 'a key present for the whole iteration is returned, exactly once with removals only, never a key that was never present', and after the iterators are gone the full dictionary check (get of every key, count, complete iteration, destroy notifications) runs.",
+ "level_text": "CBMC symbolic execution of the real lib/hashtable.c, lib/skiplist.c and lib/trie.c: EVERY history of 4 operations over the alphabet {put(k), rm(k) for 3 prefix-related keys; iter_create(i), iter_next(i), iter_free(i) for 2 iterators}; CBMC's pointer checks on the real node frees decide use-after-free / double free, the per-iterator oracle decides 'a key present for the whole iteration is returned, exactly once with removals only, never a key that was never present', and after the iterators are gone the full dictionary check (get of every key, count, complete iteration, destroy notifications) runs. The same alphabet is also run from two constant prefixes: PRELOAD (2 entries, iterator 0 on the first entry it returns; + 2/3 operations) and PRELOAD2 (3 entries, iterator 0 advanced twice = on an entry with a live predecessor and successor in the ordered map; + 3 operations, 9 deep; quick: skiplist with a removal first, thorough: all maps, every first operation).",
  "level_note": "Operation kinds and keys are scenario constants (exhaustive for the alphabet and length), stored values and nothing else are symbolic: symbolic keys stall symbolic execution of these units (measured). Trusted: CBMC; skiplist node level fixed to 0. Outside: more than 2 iterators, more than 3 keys, histories longer than the bound, iterator use after destroy.",
  "technique": "CBMC bounded symbolic execution (SAT) of real C code over an exhaustive set of constant operation scenarios; memory-safety checks + iterator/dictionary ghost oracle",
  "assumptions": ["allocation never fails", "skiplist levels = 0"],
@@ -39,6 +39,21 @@ def obligations(tier):
                bounds={"impl": IMPLS[impl], "prefix": "put k0, put k1, iter_create 0, iter_next 0", "history_length_after_prefix": nops, "first_op_index": first,
                        "scenarios_in_obligation": nalpha ** (nops - 1), "keys": 3, "iterators": 2},
                units=UNITS, stubs=["random() constant (level 0)"]))
-    # (a PRELOAD2 family - three entries, iterator 0 on the middle one, then 3 operations - exists in the harness but is not
-    #  registered: it needs a larger unwinding bound and ~5 min per obligation; see seeded/C18-2 and DESIGN.md 9.6)
+    # PRELOAD2 family: three entries, iterator 0 advanced twice (ordered maps: positioned on the middle entry, which has a live
+    # predecessor AND a live successor), then every history of 3 operations: 9 operations deep.  Reaches seeded/C18-2.
+    # quick: the histories that start with a removal (the ones that can orphan the iterator's entry); thorough: every first operation.
+    for impl in range(3):
+        for first in range(nalpha):
+            if tier == "quick" and not (impl == 1 and first in (3, 4, 5)):
+                continue
+            obs.append(Obl("%s-A18-pre2-N3-first%02d" % (IMPLS[impl], first), "c17_map.c",
+               defs=["IMPL=%d" % impl, "FIRST=%d" % first, "NOPS=3", "NKEYS=3", "ALPHABET=18", "SKIP_LEVELS=1", "PRELOAD2"] +
+                    (["CONCRETE_VALUES"] if impl == 2 else []),
+               unwind=14, n_entries=nalpha ** 2,
+               unwindset={"run_scenario": 5, "new_child_node": 33, "trie_node_split": 33, "trie_node_next": 33, "trie_node_release": 33},
+               timeout=300, mem_gb=6, object_bits=10,
+               kf=["C18-rm-under-iterator", "C18-skiplist-rm-with-zombie"],
+               bounds={"impl": IMPLS[impl], "prefix": "put k0, put k1, put k2, iter_create 0, iter_next 0, iter_next 0", "history_length_after_prefix": 3,
+                       "first_op_index": first, "scenarios_in_obligation": nalpha ** 2, "keys": 3, "iterators": 2},
+               units=UNITS, stubs=["random() constant (level 0)"]))
     return obs
